@@ -21,7 +21,7 @@ def gen_walk_case(rng, sim, heavy_churn=False):
         ew = rng.choice([None, None] + schemes)
         nw = rng.choice([None, None] + schemes)
     spec = cases.gen_graph(rng, 1 if not heavy_churn else 3, 6, directed=False, label=label,
-                           edge_w=ew, node_w=nw)
+                           edge_w=ew, node_w=nw, selfloops=0.15)
     n = len(spec["nodes"])
     idx = list(range(n))
     rng.shuffle(idx)
